@@ -103,8 +103,18 @@ def gen_num(rng, depth, ints_only=False):
         return ('call', 'ID', 'flat', [gen_num(rng, depth - 1, ints_only)], [])
     if r < 0.27 and not ints_only:
         return ('cmp', gen_cmp(rng, depth - 1))      # parenthesised comparison used as a number
+
     ops = ['+', '-', '*'] if ints_only else ['+', '-', '*', '/']
-    return ('bin', rng.choice(ops), gen_num(rng, depth - 1, ints_only), gen_num(rng, depth - 1, ints_only))
+
+    def operand():
+        if not ints_only and rng.random() < 0.05:
+            # a parenthesised concatenation as an operand of + - * /: the joined digits (with the sign of the left part)
+            # are numeric text, which arithmetic reads as that number (only there: -"12" and "12">3 are other matters)
+            x = gen_num(rng, min(depth - 1, 1), True)
+            y = ('num', 'int', str(rng.choice(PRIMES + [0, 10, 100])), '')
+            return ('cmp', ('bin', '&', ('amparg', x), ('amparg', y)))
+        return gen_num(rng, depth - 1, ints_only)
+    return ('bin', rng.choice(ops), operand(), operand())
 
 
 def _lit(n):
@@ -345,6 +355,8 @@ def exact(t):
 def num(v):
     if isinstance(v, bool):
         return Fraction(1 if v else 0)
+    if isinstance(v, str):
+        return Fraction(int(v))      # joined digits, possibly signed (only ever built from integers)
     return v
 
 
